@@ -213,6 +213,21 @@ BOUNDARY_CONFS = [
     ["acl g0 src 127.45.10.0/24", "acl g1 dstdomain .example.com", "http_access allow g0 !g1", "http_access allow !g0 g1", "http_access deny all"],
 ]
 
+QUICK_CORE = [
+    ["acl g0 src 127.45.10.1", "http_access allow g0"],                                   # implicit deny after a trailing allow
+    ["acl g0 src 127.45.10.1", "http_access deny g0"],                                    # implicit allow after a trailing deny
+    ["acl g0 src 127.45.10.0/31", "http_access allow g0", "http_access deny all"],        # CIDR edge
+    ["acl g0 src 127.45.10.2-127.45.11.1", "http_access allow g0", "http_access deny all"],   # range ends on a client address
+    ["acl g0 dst 127.45.3.9", "http_access deny g0", "http_access allow all"],            # second address of a multi-address name
+    ["acl g0 dst -n 127.45.0.0/16", "http_access allow g0", "http_access deny all"],
+    ["acl g0 dstdomain none", "http_access allow g0", "http_access deny all"],            # numeric host without PTR
+    ["acl g0 dstdomain .example.org a.example.com", "http_access allow g0", "http_access deny all"],   # PTR names
+    ["acl g0 dstdomain x-example.com .example.com", "http_access allow g0", "http_access deny all"],
+    ["acl g0 port 81-8080", "http_access allow g0", "http_access deny all"],
+    ["acl g0 port 443", "http_access deny CONNECT !g0", "http_access allow all"],
+    ["acl g0 src 127.45.10.0/24", "acl g1 dstdomain .example.com", "http_access allow g0 !g1", "http_access allow !g0 g1", "http_access deny all"],
+]
+
 # configurations whose text leaves the canonical grammar of the reference (the oracle keeps to its generic part there; the model still has to agree)
 ODD_CONFS = [
     ["acl g0 src 127.45.10.1/24", "http_access allow g0", "http_access deny all"],            # mask cuts off part of the address
@@ -355,12 +370,17 @@ def fixed_requests():
 def cases(rng, tier):
     thorough = tier == "thorough"
     fixed = fixed_requests()
-    # boundary stream
-    bsel = BOUNDARY_CONFS if thorough else [BOUNDARY_CONFS[i] for i in sorted(set(rng.below(len(BOUNDARY_CONFS)) for _ in range(12)))]
+    # boundary stream: in the quick tier a core that touches every branch of the decision logic + a random handful of the rest
+    if thorough:
+        bsel = BOUNDARY_CONFS
+    else:
+        core = [c for c in BOUNDARY_CONFS if c in QUICK_CORE]
+        rest = [c for c in BOUNDARY_CONFS if c not in QUICK_CORE]
+        bsel = core + [rest[i] for i in sorted(set(rng.below(len(rest)) for _ in range(5)))]
     for c in bsel:
-        yield mk(c, fixed if thorough else rng.shuffle(list(fixed))[:9])
+        yield mk(c, fixed)
     # valid stream
-    for _ in range(220 if thorough else 22):
+    for _ in range(220 if thorough else 18):
         yield mk(valid_conf(rng), gen_requests(rng, rng.range(6, 10)))
     # mutation stream
     for _ in range(120 if thorough else 12):
